@@ -2,19 +2,21 @@
 # tools/seed_eval.sh <worktree> <seed-name> <property> [check ids to run; default: the property]
 # Confirms a sub-agent's change (tests still pass, demo fails with / passes without), runs our checks
 # against the worktree (VERIF_REPO), stores everything under /verif/seeded/<seed-name>/.
+# The agent's MUTANT/patch.diff is the source of truth (worktree state is reset and the patch re-applied).
 WT=$1; NAME=$2; PROP=$3; shift 3
 IDS=${@:-$PROP}
 D=/verif/seeded/$NAME
 mkdir -p $D /tmp/seedout/$NAME
 cd $WT || exit 2
-git diff -- eudoxia > $D/patch.diff
-[ -s $D/patch.diff ] || { echo "no source change in $WT"; exit 2; }
+cp MUTANT/patch.diff $D/patch.diff || exit 2
+[ -s $D/patch.diff ] || { echo "no patch in $WT/MUTANT"; exit 2; }
 cp MUTANT/demo.py $D/demo.py 2>/dev/null; cp MUTANT/notes.md $D/notes.md 2>/dev/null
+git checkout -q -- eudoxia; git apply $D/patch.diff || { echo "patch does not apply"; exit 2; }
 T=$(PYTHONPATH=$WT timeout 900 /venv/bin/python -m pytest -q -p no:cacheprovider 2>&1 | tail -1)
 PYTHONPATH=$WT timeout 300 /venv/bin/python $D/demo.py > /tmp/seedout/$NAME/demo_with.txt 2>&1; DW=$?
-git stash -q
+git apply -R $D/patch.diff
 PYTHONPATH=$WT timeout 300 /venv/bin/python $D/demo.py > /tmp/seedout/$NAME/demo_without.txt 2>&1; DO=$?
-git stash pop -q
+git apply $D/patch.diff
 echo "tests: $T | demo with change: exit $DW | without: exit $DO"
 RES=""
 for id in $IDS; do
